@@ -406,7 +406,9 @@ def c11(tier, rep):
     E.grow(rep, M.STRUCT, [([], 6 if q else 8), (PFX_TAGGED, 2 if q else 3), (PFX_OUTLINE, 2 if q else 4)], invariants=["Inv_C11"], label="struct")
     _stream_part(tier, rep, lambda what: what in ("Inv_C11_Unique", "Inv_C11_Dense", "unique", "envelopes") or "Monotone" in what)
     E.traces(rep, E.record_all(std_sources(tier, 300, 3000) + E.src_generated(40 if q else 600, SEED + 2, MIXED_CASE_DIALECTS)), "corpus+gen+noisy+dialects")
+    E.compiler_reuse_pass(rep, std_sources(tier, 100, 1000))
     _default_parser_ids(rep)
+    _many_ids(rep, 1200 if q else 4000)
 
 def _all_ids(doc, pickles):
     out = []
@@ -425,11 +427,23 @@ def _all_ids(doc, pickles):
     return out
 
 
+def _many_ids(rep, n_scenarios):
+    """a document that draws several thousand ids: dense, unique, canonical from the first to the last (compared with the specification's ids)"""
+    text = "Feature: many\n" + "".join(f"  Scenario: s{i}\n    Given x{i}\n" for i in range(n_scenarios))
+    E.traces(rep, E.record_all([(f"many-ids:{n_scenarios}", text, "en")]), "many-ids")
+
+
 def _default_parser_ids(rep):
     """one id generator = one id space: a default-constructed Parser (and a Compiler sharing its generator) used for several documents"""
     import project as P
     from gherkin.parser import Parser
     from gherkin.pickles.compiler import Compiler
+    first = Parser().parse("@a\nFeature: a\n  Scenario: s\n    Given x\n")
+    second = Parser().parse("@a\nFeature: a\n  Scenario: s\n    Given x\n")
+    rep.case(("two-default-parsers",))
+    if first != second or _all_ids(P.document(first), []) != [2, 1, 0] and sorted(_all_ids(P.document(first), [])) != [0, 1, 2]:
+        rep.violation({"kind": "default-generators-not-fresh"}, {"engine": "default-parser", "what": "two default-constructed parsers give different ids for the same document "
+                                                                 "(each has its own fresh generator: ids must start at 0)", "first": _all_ids(P.document(first), []), "second": _all_ids(P.document(second), [])})
     parser = Parser()
     comp = Compiler(parser.ast_builder.id_generator)
     seen = []
@@ -456,8 +470,8 @@ def c09(tier, rep):
     rep.extra["rule"] = ("every template <= L over {<, >, a, ., backslash, $} x header/value pairs (regex metacharacters, group references, placeholders in values, "
                          "two sequential columns): distinct triples, non-trivial = the template contains a placeholder of the header; replayed on AST dictionaries "
                          "through Compiler.compile (name, step text, cell, doc string content, media type, background step untouched); a sample as real text")
-    headers = [["a"], ["."], ["a."], ["<a"], ["a>"], ["("], [""], ["$"], ["\\"], ["a", "."], ["a", "<a>"]]
-    values = [["x"], [""], ["<a>"], ["\\"], ["\\1"], ["$"], [".a"], [">"], ["\\g<0>"], ["<.>", "y"], ["<a>", "<.>"], ["<<a>>", "z"]]
+    headers = [["a"], ["."], ["a."], ["<a"], ["a>"], ["("], [""], ["$"], ["\\"], ["\na"], ["a\n"], ["a", "."], ["a", "<a>"], ["a", "a"], [".", "a."]]
+    values = [["x"], [""], ["<a>"], ["\\"], ["\\1"], ["$"], [".a"], [">"], ["\\g<0>"], ["\n"], ["<.>", "y"], ["<a>", "<.>"], ["<<a>>", "z"], ["x", "y"], ["<a.>", "."]]
     cases, bad, res = CL.interpolate("<>a.\\$", 4 if tier == "quick" else 5, headers, values)
     rep.add_tlc("MC_Interpolate", res, f"{len(cases)} (template, headers, values) triples: operational = declarative, unchanged, literal, sequential; replayed through Compiler.compile")
     rep.traces += len(cases)
@@ -481,6 +495,7 @@ def c09(tier, rep):
         docs.append((f"interp-text:{k}", "Feature: f\n  Background:\n    Given " + t + "\n  Scenario Outline: " + t + "\n    Given " + t + "\n      | " + esc(t) + " |\n    When y\n      \"\"\" " + t
                      + "\n      " + t + "\n      \"\"\"\n    Examples:\n      | " + " | ".join(map(esc, hs)) + " |\n      | " + " | ".join(map(esc, vs)) + " |\n", "en"))
     E.grow(rep, M.STRUCT, [(PFX_BG_ARG, 2 if tier == "quick" else 3), (PFX_OUTLINE, 2)], invariants=["Inv_C09"], label="struct")
+    E.compiler_reuse_pass(rep, std_sources(tier, 150, 1500))
     E.traces(rep, E.record_all(docs + std_sources(tier, 200, 2000)), "interp-text+corpus+gen")
 
 
@@ -522,6 +537,7 @@ def c10(tier, rep):
         body = f"{D['feature'][0]}: f\n  {D['scenarioOutline'][0]}: o\n" + "".join(f"    {kw}s{i}\n" for i, kw in enumerate(kws)) + f"    {D['examples'][0]}:\n      | h |\n      | 1 |\n"
         docs.append((f"steps:{d}", body, d))
     E.traces(rep, E.record_all(docs + std_sources(tier, 200, 2000)), "all-step-keywords+corpus+gen")
+    E.compiler_reuse_pass(rep, std_sources(tier, 150, 1500))
     # one matcher re-used across documents that switch dialect by header: the keyword -> type map must be the dialect's own each time
     hdr = [(f"hdr:{d}", f"# language: {d}\n" + body, "en") for (n, body, d) in docs[:: 2 if tier == "quick" else 1]]
     E.reuse_pass(rep, hdr + [("plain-en", "Feature: f\n  Scenario: s\n    Given a\n    And b\n    * c\n", "en")] + hdr[:5], "reuse-headers")
